@@ -1,8 +1,393 @@
+import CV.Model.Bits
+import CV.Model.BitsExpGolomb
 import CV.Driver.Util
-/-! Line protocol for component `bits` (stub; owned by the component's author) -/
-namespace CV.Driver.Bits
-open CV CV.Driver
+/-!
+Line protocol for the bit-level coders.
 
-def handle (_segs : List (List String)) : String := "bad-op"
+```
+bits.stack W | init | op | op …         init: new | cap n | compressed ws
+bits.queue W | init | op | op …         init: new | cap n | compressed ws | dec ws
+bits.stacksweep W n                      every bit string of length n  ->  "count digest"
+bits.queuesweep W n
+bits.golomb N v                          codebook only: "prefix suffix"
+bits.golombdec N bitstring               codebook only, from a plain bit iterator
+bits.golombsweep N lo hi                 -> "count digest"
+bits.golombdecsweep N L                  every bit string of length L decoded -> "count digest"
+```
+ops: `w b`, `ws bitstring`, `r`, `len`, `empty`, `raw`, `export` (into_compressed, then continue
+with from_compressed of the result), `getc` (guard), `iter`, `drain` (the `Iterator` impl run to
+the end), `todec` (into_decoder), `eg N v`, `egs N form vs`, `dg N`, `dgs N form n`,
+`nat bitstring` / `via bitstring` (a codebook that natively / only via the default method emits
+the given bits), `mexh`, `clone`.
+-/
+namespace CV.Driver.Bits
+open CV CV.Driver CV.Bits
+
+inductive St where
+  | stack (c : Coder)
+  | stackDec (c : Coder)
+  | qenc (c : Coder)
+  | qdec (d : QDecoder)
+
+def showBits (l : List Bool) : String :=
+  if l.isEmpty then "-" else String.ofList (l.map (fun b => if b then '1' else '0'))
+
+def parseBits (s : String) : Option (List Bool) :=
+  if s == "-" then some [] else
+  s.toList.foldr (fun ch acc => match acc with
+    | none => none
+    | some l => if ch == '1' then some (true :: l) else if ch == '0' then some (false :: l) else none)
+    (some [])
+
+def showRaw (c : Coder) : String :=
+  showList c.backend.reverse ++ " " ++ toHex c.cw ++ " " ++ toHex c.mask
+
+def showRawD (d : QDecoder) : String :=
+  showList d.rest ++ " " ++ toHex d.cw ++ " " ++ toHex d.mask
+
+def showOptBit : Option Bool → String
+  | none => "none"
+  | some true => "1"
+  | some false => "0"
+
+def showSym : Except SymErr Nat → String
+  | .ok v => toHex v
+  | .error .invalidCodeword => "invalid"
+  | .error .outOfCompressedData => "out_of_data"
+
+/-- integer widths for which `ExpGolomb<N>` is compiled into the harness -/
+def okN (N : Nat) : Bool := N == 8 || N == 16 || N == 32 || N == 64 || N == 128
+
+abbrev R (σ : Type) := Option (σ × String × Bool)
+
+/-- decode `n` symbols one after the other, stop at the first error -/
+def decLoop {σ : Type} (dec : σ → M (σ × Except SymErr Nat)) : Nat → σ → List Nat → σ × String × Bool
+  | 0, s, acc => (s, showList acc.reverse, false)
+  | k + 1, s, acc =>
+    match dec s with
+    | .error f => (s, faultStr f, true)
+    | .ok (s', .ok v) => decLoop dec k s' (v :: acc)
+    | .ok (s', .error e) => (s', showList acc.reverse ++ " " ++ showSym (.error e), false)
+
+/-- encode a list of symbols one after the other -/
+def encLoop (enc : Nat → Coder → M Coder) : List Nat → Coder → Coder × String × Bool
+  | [], c => (c, "ok", false)
+  | v :: vs, c =>
+    match enc v c with
+    | .error f => (c, faultStr f, true)
+    | .ok c' => encLoop enc vs c'
+
+/-- ops shared by the write side of `StackCoder` and `QueueEncoder` -/
+def writeOp (W : Nat) (isStack : Bool) (c : Coder) (seg : List String) : Option (Coder × String × Bool) :=
+  let encSym (N : Nat) (v : Nat) (c : Coder) : M Coder :=
+    if isStack then Stack.encodeSymbol W (EG.encBook N) v c else Queue.encodeSymbol W (EG.encBook N) v c
+  match seg with
+  | ["w", b] => do
+      let b ← parseHex b
+      if b > 1 then none else some (writeBit W c (b == 1), "ok", false)
+  | ["ws", bs] => do
+      let bs ← parseBits bs
+      some (writeBits W c bs, "ok", false)
+  | ["len"] =>
+      match len W c with
+      | .ok n => some (c, toHex n, false)
+      | .error f => some (c, faultStr f, true)
+  | ["empty"] => some (c, showBool (isEmpty c), false)
+  | ["raw"] => some (c, showRaw c, false)
+  | ["eg", n, v] => do
+      let N ← parseHex n
+      let v ← parseHex v
+      if !okN N || v ≥ 2^N then none else
+      match encSym N v c with
+      | .ok c' => some (c', "ok", false)
+      | .error f => some (c, faultStr f, true)
+  | ["egs", n, form, vs] => do
+      let N ← parseHex n
+      let form ← parseHex form
+      let vs ← parseList vs
+      if !okN N || vs.any (· ≥ 2^N) then none else
+      -- 0 = encode_symbols, 1 = encode_iid_symbols, 2/3 = the `_reverse` forms (stack only)
+      if form ≤ 1 then some (encLoop (encSym N) vs c)
+      else if form ≤ 3 && isStack then some (encLoop (encSym N) vs.reverse c)
+      else none
+  | ["nat", bs] => do
+      let bs ← parseBits bs
+      some (writeBits W c bs, "ok", false)
+  | ["via", bs] => do
+      let bs ← parseBits bs
+      match viaSmallBitStack bs with
+      | .ok r => some (writeBits W c r, "ok", false)
+      | .error f => some (c, faultStr f, true)
+  | _ => none
+
+/-- ops shared by the read side of a stack coder (over `Vec` or over `Cursor`) -/
+def stackReadOp (W : Nat) (c : Coder) (seg : List String) : Option (Coder × String × Bool) :=
+  match seg with
+  | ["r"] => let (b, c') := readBit W c; some (c', showOptBit b, false)
+  | ["dg", n] => do
+      let N ← parseHex n
+      if !okN N then none else
+      match Stack.decodeSymbol W (EG.decBook N) c with
+      | .ok (c', r) => some (c', showSym r, false)
+      | .error f => some (c, faultStr f, true)
+  | ["dgs", n, form, k] => do
+      let N ← parseHex n
+      let form ← parseHex form
+      let k ← parseHex k
+      if !okN N || form > 1 then none else
+      some (decLoop (Stack.decodeSymbol W (EG.decBook N)) k c [])
+  | ["drain"] =>
+      match Stack.drain W (Stack.fuel W c) c with
+      | some (bs, c') => some (c', showBits bs, false)
+      | none => some (c, faultStr fuelFault, true)
+  | ["len"] =>
+      match len W c with
+      | .ok n => some (c, toHex n, false)
+      | .error f => some (c, faultStr f, true)
+  | ["empty"] => some (c, showBool (isEmpty c), false)
+  | ["raw"] => some (c, showRaw c, false)
+  | _ => none
+
+def doOp (W : Nat) (st : St) (seg : List String) : Option (St × String × Bool) :=
+  match st with
+  | .stack c =>
+    match seg with
+    | ["export"] =>
+        let ws := Stack.intoCompressed W c
+        match Stack.fromCompressed W ws with
+        | .ok c' => some (.stack c', showList ws.reverse ++ " ok", false)
+        | .error .endsInZero => some (.stack Bits.empty, showList ws.reverse ++ " err", false)
+        | .error (.fault f) => some (.stack c, faultStr f, true)
+    | ["getc"] =>
+        match Stack.getCompressed W c with
+        | .ok (ws, c') => some (.stack c', showList ws.reverse, false)
+        | .error f => some (.stack c, faultStr f, true)
+    | ["iter"] =>
+        match Stack.iter W c with
+        | .ok bs => some (.stack c, showBits bs, false)
+        | .error f => some (.stack c, faultStr f, true)
+    | ["todec"] => some (.stackDec c, "ok", false)
+    | _ =>
+      match stackReadOp W c seg with
+      | some (c', o, d) => some (.stack c', o, d)
+      | none =>
+        match writeOp W true c seg with
+        | some (c', o, d) => some (.stack c', o, d)
+        | none => none
+  | .stackDec c =>
+    match stackReadOp W c seg with
+    | some (c', o, d) => some (.stackDec c', o, d)
+    | none => none
+  | .qenc c =>
+    match seg with
+    | ["export"] =>
+        let ws := Queue.intoCompressed c
+        some (.qenc (Queue.fromCompressed ws), showList ws.reverse ++ " ok", false)
+    | ["getc"] =>
+        let (ws, c') := Queue.getCompressed c
+        some (.qenc c', showList ws.reverse, false)
+    | ["todec"] => some (.qdec (Queue.intoDecoder c), "ok", false)
+    | _ =>
+      match writeOp W false c seg with
+      | some (c', o, d) => some (.qenc c', o, d)
+      | none => none
+  | .qdec d =>
+    match seg with
+    | ["r"] => let (b, d') := QDecoder.readBit W d; some (.qdec d', showOptBit b, false)
+    | ["dg", n] => do
+        let N ← parseHex n
+        if !okN N then none else
+        match QDecoder.decodeSymbol W (EG.decBook N) d with
+        | .ok (d', r) => some (.qdec d', showSym r, false)
+        | .error f => some (.qdec d, faultStr f, true)
+    | ["dgs", n, form, k] => do
+        let N ← parseHex n
+        let form ← parseHex form
+        let k ← parseHex k
+        if !okN N || form > 1 then none else
+        let (d', o, dead) := decLoop (QDecoder.decodeSymbol W (EG.decBook N)) k d []
+        some (.qdec d', o, dead)
+    | ["drain"] =>
+        match QDecoder.iter W d with
+        | .ok (bs, d') => some (.qdec d', showBits bs, false)
+        | .error f => some (.qdec d, faultStr f, true)
+    | ["mexh"] => some (.qdec d, showBool (QDecoder.maybeExhausted W d), false)
+    | ["clone"] => some (.qdec d, "ok", false)
+    | ["raw"] => some (.qdec d, showRawD d, false)
+    | _ => none
+
+def runOps (W : Nat) : St → List (List String) → List String → List String
+  | _, [], acc => acc.reverse
+  | st, seg :: rest, acc =>
+    match doOp W st seg with
+    | none => ("bad-op" :: acc).reverse
+    | some (st', out, dead) =>
+      if dead then (out :: acc).reverse else runOps W st' rest (out :: acc)
+
+def okW (W : Nat) : Bool := W == 8 || W == 16 || W == 32 || W == 64
+
+def doInit (W : Nat) (isStack : Bool) (seg : List String) : Option (Option St) :=
+  match seg with
+  | ["new"] => some (some (if isStack then .stack Bits.empty else .qenc Bits.empty))
+  | ["cap", n] => do
+      let _ ← parseHex n
+      some (some (if isStack then .stack Bits.empty else .qenc Bits.empty))
+  | ["compressed", ws] => do
+      let l ← parseList ws
+      if l.any (· ≥ 2^W) then none else
+      if isStack then
+        match Stack.fromCompressed W l.reverse with
+        | .ok c => some (some (.stack c))
+        | .error _ => some none
+      else some (some (.qenc (Queue.fromCompressed l.reverse)))
+  | ["dec", ws] => do
+      let l ← parseList ws
+      if isStack || l.any (· ≥ 2^W) then none else
+      some (some (.qdec (QDecoder.fromCompressed l)))
+  | _ => none
+
+/-- all bit strings of length `n`, the `i`-th bit of string number `pat` is bit `i` of `pat` -/
+def patBits (n pat : Nat) : List Bool := (List.range n).map (fun i => pat.testBit i)
+
+def digList (h : UInt64) (l : List Nat) : UInt64 :=
+  l.foldl digestStep (digestStep h l.length)
+
+def digBits (h : UInt64) (l : List Bool) : UInt64 :=
+  l.foldl (fun h b => digestStep h (if b then 1 else 0)) (digestStep h l.length)
+
+def digRaw (h : UInt64) (c : Coder) : UInt64 :=
+  digestStep (digestStep (digList h c.backend.reverse) c.cw) c.mask
+
+/-- everything observable about a stack coder that holds the bits `bs`, folded into `h` -/
+def stackCase (W : Nat) (h : UInt64) (bs : List Bool) : UInt64 :=
+  let c := writeBits W Bits.empty bs
+  let h := digRaw h c
+  let h := match len W c with | .ok n => digestStep h n | .error _ => digestStep h 0xffff
+  let h := digestStep h (if isEmpty c then 1 else 0)
+  let h := match Stack.iter W c with | .ok l => digBits h l | .error _ => digestStep h 0xfffe
+  -- guard: view, representation after the drop, behaviour after the drop
+  let h := match Stack.getCompressed W c with
+    | .ok (ws, c') =>
+      let h := digRaw (digList h ws.reverse) c'
+      let c'' := writeBit W c' true
+      let (b, c3) := readBit W c''
+      digRaw (digestStep h (match b with | none => 2 | some true => 1 | some false => 0)) c3
+    | .error _ => digestStep h 0xfffd
+  -- export / re-import
+  let ws := Stack.intoCompressed W c
+  let h := digList h ws.reverse
+  match Stack.fromCompressed W ws with
+  | .ok c' =>
+    let h := digRaw h c'
+    let h := match len W c' with | .ok n => digestStep h n | .error _ => digestStep h 0xffff
+    match Stack.drain W (Stack.fuel W c') c' with
+    | some (l, c'') => digRaw (digBits h l) c''
+    | none => digestStep h 0xfffc
+  | .error _ => digestStep h 0xfffb
+
+def queueCase (W : Nat) (h : UInt64) (bs : List Bool) : UInt64 :=
+  let c := writeBits W Bits.empty bs
+  let h := digRaw h c
+  let h := match len W c with | .ok n => digestStep h n | .error _ => digestStep h 0xffff
+  let h := digestStep h (if isEmpty c then 1 else 0)
+  let (ws, c') := Queue.getCompressed c
+  let h := digRaw (digList h ws.reverse) c'
+  let c'' := writeBit W c' true
+  let h := digRaw h c''
+  let ws := Queue.intoCompressed c
+  let h := digList h ws.reverse
+  let c2 := Queue.fromCompressed ws
+  let h := match len W c2 with | .ok n => digestStep h n | .error _ => digestStep h 0xffff
+  let h := digRaw h (writeBit W c2 true)
+  let d := Queue.intoDecoder c
+  let h := digestStep h (if QDecoder.maybeExhausted W d then 1 else 0)
+  match QDecoder.iter W d with
+  | .ok (l, d') =>
+    let h := digBits h l
+    digestStep (digestStep (digestStep h d'.cw) d'.mask) (if QDecoder.maybeExhausted W d' then 1 else 0)
+  | .error _ => digestStep h 0xfffc
+
+def sweepPats (f : UInt64 → List Bool → UInt64) (n : Nat) : Nat → UInt64 → UInt64
+  | 0, h => h
+  | k + 1, h => sweepPats f n k (f h (patBits n (2^n - 1 - k)))
+
+def showDigest (count : Nat) (h : UInt64) : String := toHex count ++ " " ++ toHex h.toNat
+
+def golombCase (N : Nat) (h : UInt64) (v : Nat) : UInt64 :=
+  let h := match EG.prefixBits N v with | .ok l => digBits h l | .error _ => digestStep h 0xffff
+  let h := match EG.suffixBits N v with | .ok l => digBits h l | .error _ => digestStep h 0xfffe
+  match EG.prefixBits N v with
+  | .ok l =>
+    let src := l ++ [true, false, true]
+    match EG.decode N listSrc (src.length + 1) src with
+    | .ok (rest, .ok r) => digestStep (digestStep h r) rest.length
+    | .ok (rest, .error _) => digestStep (digestStep h 0xfffd) rest.length
+    | .error _ => digestStep h 0xfffc
+  | .error _ => h
+
+def golombSweep (N : Nat) (lo : Nat) : Nat → UInt64 → UInt64
+  | 0, h => h
+  | k + 1, h => golombSweep N (lo + 1) k (golombCase N h lo)
+
+def golombDecCase (N : Nat) (h : UInt64) (bs : List Bool) : UInt64 :=
+  match EG.decode N listSrc (bs.length + 1) bs with
+  | .ok (rest, .ok r) => digestStep (digestStep h r) rest.length
+  | .ok (rest, .error _) => digestStep (digestStep h 0xfffd) rest.length
+  | .error _ => digestStep h 0xfffc
+
+def handle (segs : List (List String)) : String :=
+  match segs with
+  | [kind, w] :: init :: ops =>
+    if kind != "bits.stack" && kind != "bits.queue" then "bad-op" else
+    match parseHex w with
+    | some W =>
+      if !okW W then "unsupported" else
+      match doInit W (kind == "bits.stack") init with
+      | some (some st) => " | ".intercalate (runOps W st ops ["ok"])
+      | some none => "err"
+      | none => "bad-op"
+    | none => "bad-op"
+  | [["bits.stacksweep", w, n]] =>
+    match parseHex w, parseHex n with
+    | some W, some n =>
+      if !okW W || n > 24 then "unsupported" else
+      showDigest (2^n) (sweepPats (stackCase W) n (2^n) digestInit)
+    | _, _ => "bad-op"
+  | [["bits.queuesweep", w, n]] =>
+    match parseHex w, parseHex n with
+    | some W, some n =>
+      if !okW W || n > 24 then "unsupported" else
+      showDigest (2^n) (sweepPats (queueCase W) n (2^n) digestInit)
+    | _, _ => "bad-op"
+  | [["bits.golomb", n, v]] =>
+    match parseHex n, parseHex v with
+    | some N, some v =>
+      if !okN N || v ≥ 2^N then "unsupported" else
+      match EG.prefixBits N v, EG.suffixBits N v with
+      | .ok p, .ok s => showBits p ++ " " ++ showBits s
+      | .error f, _ => faultStr f
+      | _, .error f => faultStr f
+    | _, _ => "bad-op"
+  | [["bits.golombdec", n, bs]] =>
+    match parseHex n, parseBits bs with
+    | some N, some bs =>
+      if !okN N then "unsupported" else
+      match EG.decode N listSrc (bs.length + 1) bs with
+      | .ok (rest, r) => showSym r ++ " " ++ toHex rest.length
+      | .error f => faultStr f
+    | _, _ => "bad-op"
+  | [["bits.golombsweep", n, lo, hi]] =>
+    match parseHex n, parseHex lo, parseHex hi with
+    | some N, some lo, some hi =>
+      if !okN N || hi ≥ 2^N || hi < lo then "unsupported" else
+      showDigest (hi - lo + 1) (golombSweep N lo (hi - lo + 1) digestInit)
+    | _, _, _ => "bad-op"
+  | [["bits.golombdecsweep", n, l]] =>
+    match parseHex n, parseHex l with
+    | some N, some L =>
+      if !okN N || L > 24 then "unsupported" else
+      showDigest (2^L) (sweepPats (golombDecCase N) L (2^L) digestInit)
+    | _, _ => "bad-op"
+  | _ => "bad-op"
 
 end CV.Driver.Bits
